@@ -43,6 +43,7 @@ Record is_wf (sp : ispec) : Prop := mkWf {
   wf_no : forall x, is_on sp x = true -> is_nm sp x <> bOUTPUT;
   wf_np : forall x, is_on sp x = true -> is_nm sp x <> bPREROUTING;
   wf_sp : forall x, is_on sp x = true -> nospace (is_nm sp x) = true;
+  wf_an : forall x, is_on sp x = true -> aname (is_nm sp x) = true;
   wf_jo : forall x, is_on sp x = true -> jumps_to (is_nm sp x) (is_jo sp) = slot_eqb (is_to sp) x;
   wf_jp : forall x, is_on sp x = true -> jumps_to (is_nm sp x) (is_jp sp) = slot_eqb (is_tp sp) x;
   wf_to : is_on sp (is_to sp) = true;
@@ -319,7 +320,7 @@ Lemma itest_sim x s a :
   is_on sp x = true -> RelS s a ->
   chain_in_listing (is_nm sp x) (listing (get_tbl (is_fam sp) (is_tbl sp) s)) = itest x a.
 Proof.
-  intros Hx Hr. rewrite listing_test; [|apply (wf_sp sp Hwf); exact Hx | exact (r_names _ _ _ Hr)].
+  intros Hx Hr. rewrite listing_test; [|apply (wf_sp sp Hwf); exact Hx | apply (wf_an sp Hwf); exact Hx | exact (r_names _ _ _ Hr)].
   rewrite (r_fc _ _ _ Hr x Hx). reflexivity.
 Qed.
 
